@@ -335,4 +335,16 @@ theorem c14_candidates_spec (n : Nat) (skip : Nat → Bool) (caClose : Nat → N
 example : [(4, (-6 : Rat) / 10), (7, -2), (9, -1)].foldl (fun st c => store st c.1 c.2) (none, none) = (some (7, -2), some (9, -1)) := by
   decide +kernel
 
+/-- **the law-of-cosines step of `_compute_bounded_geometry`**: when the three sides are the lengths of displacement vectors that close
+into a triangle (`w = v − u`, as minimum-image sides do inside half the cell), `(a² + b² − c²)/(2ab)`'s numerator is twice the dot
+product, i.e. the formula computes the cosine of the geometric angle between `u` and `v` -/
+theorem c14_law_of_cosines (u v : V3) : u.norm2 + v.norm2 - (v.sub u).norm2 = 2 * u.dot v := by
+  simp only [V3.norm2, V3.dot, V3.sub]; ring
+
+/-- and when the sides do NOT close (sides taken to different periodic images, `w = v − u + l` with a lattice vector `l ≠ 0`), the formula
+is off by `−2 l·(v − u) − |l|²`: this is the regime (a separation beyond half the cell) the property excludes -/
+theorem c14_law_of_cosines_open (u v l : V3) :
+    u.norm2 + v.norm2 - ((v.sub u).add l).norm2 = 2 * u.dot v - 2 * l.dot (v.sub u) - l.norm2 := by
+  simp only [V3.norm2, V3.dot, V3.sub, V3.add]; ring
+
 end MdVerif.Hb
